@@ -35,6 +35,7 @@ type Info struct {
 type Plan struct {
 	Shards     int
 	CPUSeconds int // RLIMIT_CPU per worker (0 = default)
+	CaseCPU    int // CPU seconds one case may legitimately use before the watchdog ends the worker (0 = 20)
 }
 
 // Monitor is one property's check.
@@ -216,6 +217,9 @@ func perCaseCPUSeconds(m Monitor) int {
 	if v, _ := strconv.Atoi(os.Getenv("VERIF_CASE_CPU")); v > 0 {
 		return v
 	}
+	if v := m.Plan("quick").CaseCPU; v > 0 {
+		return v
+	}
 	return 20
 }
 
@@ -331,7 +335,7 @@ func runSingle(prop, crashFile string) int {
 	if m == nil || cs == nil {
 		return 3
 	}
-	lim := syscall.Rlimit{Cur: 40, Max: 45}
+	lim := syscall.Rlimit{Cur: uint64(2 * perCaseCPUSeconds(m)), Max: uint64(2*perCaseCPUSeconds(m) + 5)}
 	_ = syscall.Setrlimit(0, &lim)
 	p := getPaths(prop)
 	kf, _ := LoadKnownFindings(p.known)
